@@ -6,7 +6,7 @@
     PARTIAL: the round-trip theorem parse(print c) = abs c is proved here for the stream-selector
     sub-grammar with an unbounded number of matchers; for the rest of the grammar it is established by the
     correspondence against generator-computed expectations, not by a theorem (see DESIGN.md). *)
-From LogQLV Require Import Base.Bytes Base.FloatX Model.Tables Model.Syntax Model.Parser Proofs.ParserP Proofs.PipelineP Proofs.LogRangeP Proofs.QueryP Proofs.UnwrapP Model.Lexer Proofs.LexerP.
+From LogQLV Require Import Base.Bytes Base.FloatX Model.Tables Model.Syntax Model.Parser Proofs.ParserP Proofs.PipelineP Proofs.LogRangeP Proofs.QueryP Proofs.UnwrapP Model.Lexer Proofs.LexerP Proofs.LexParseP.
 
 (** every selector {l1 op1 "v1", ..., ln opn "vn"} with any number of matchers, all four operators, any value bytes (regex
     values that compile) and any label names -- whether the lexer classifies a name as Ident or as a keyword (by, on, json,
@@ -83,8 +83,8 @@ Example logrange_roundtrip_example :
   let rn := fun _ : bytes => Some (@nil bytes) in
   let sel := [ {| m_label := ["a"%byte]; m_op := OpEq; m_value := ["v"%byte] |} ] in
   let sts := [SLine OpEq ["x"%byte] false; SJson [] []] in
-  match parse_range_expr 9 {| prev := []; rest := print_logrange anch rn (fun _ => TIdent) sel sts ["5"%byte; "m"%byte] 300000000000 (Some (["1"%byte; "m"%byte], 60000000000)) ++ [plain TCloseParen []] |} with
-  | POk lr st => r_sel lr = sel /\ r_pipe lr = sts /\ r_range lr = 300000000000 /\ r_offset lr = Some 60000000000 /\ rest st = [plain TCloseParen []]
+  match parse_range_expr 9 {| prev := []; rest := print_logrange anch rn (fun _ => TIdent) sel sts ["5"%byte; "m"%byte] 300000000000 (Some (["1"%byte; "m"%byte], 60000000000)) ++ [punct TCloseParen] |} with
+  | POk lr st => r_sel lr = sel /\ r_pipe lr = sts /\ r_range lr = 300000000000 /\ r_offset lr = Some 60000000000 /\ rest st = [punct TCloseParen]
   | _ => False
   end.
 Proof. vm_compute. repeat split. Qed.
@@ -107,7 +107,7 @@ Theorem range_agg_parse :
          (sel : list matcher) (sts : list stage) (rtxt : bytes) (rns : Z) (off : option (bytes * Z)),
   range_validate o None None false = true ->
   Forall (wf_lmatcher anch cls) sel -> Forall (fun m => ttype_eqb (cls (m_label m)) TCloseBrace = false) sel ->
-  chain_ok anch re_names sts (print_range rtxt rns off ++ [plain TCloseParen []]) ->
+  chain_ok anch re_names sts (print_range rtxt rns off ++ [punct TCloseParen]) ->
   parse_tokens (print_range_agg anch re_names cls o sel sts rtxt rns off) =
     Parsed (ERange o {| r_sel := sel; r_range := rns; r_pipe := sts; r_unwrap := None; r_offset := option_map snd off |} None None).
 Proof. exact range_agg_parse_lemma. Qed.
@@ -120,7 +120,7 @@ Theorem vec_agg_parse :
          (sel : list matcher) (sts : list stage) (rtxt : bytes) (rns : Z) (off : option (bytes * Z)),
   vector_validate v None (Some g) = true -> range_validate o None None false = true ->
   Forall (wf_lmatcher anch cls) sel -> Forall (fun m => ttype_eqb (cls (m_label m)) TCloseBrace = false) sel ->
-  chain_ok anch re_names sts (print_range rtxt rns off ++ [plain TCloseParen []; plain TCloseParen []]) ->
+  chain_ok anch re_names sts (print_range rtxt rns off ++ [punct TCloseParen; punct TCloseParen]) ->
   parse_tokens (print_vec_agg anch re_names cls v g o sel sts rtxt rns off) = Parsed (EVecAgg v (range_expr o sel sts rns off) None (Some g)).
 Proof. exact vec_agg_parse_lemma. Qed.
 Print Assumptions vec_agg_parse.
@@ -135,7 +135,7 @@ Theorem unwrap_agg_parse :
          (sel : list matcher) (sts : list stage) (cv l rtxt : bytes) (rns : Z) (off : option (bytes * Z)) (g : option grouping),
   range_validate o None g true = true ->
   Forall (wf_lmatcher anch cls) sel -> Forall (fun m => ttype_eqb (cls (m_label m)) TCloseBrace = false) sel ->
-  chain_mid anch re_names sts (unwrap_tail cv l rtxt rns off (plain TCloseParen [] :: print_opt_grouping g)) ->
+  chain_mid anch re_names sts (unwrap_tail cv l rtxt rns off (punct TCloseParen :: print_opt_grouping g)) ->
   wf_unwrap cv ->
   parse_tokens (print_unwrap_agg anch re_names cls o sel sts cv l rtxt rns off g) = Parsed (ERange o (unwrap_lr sel sts cv l rns off) None g).
 Proof. exact unwrap_agg_parse_lemma. Qed.
@@ -181,6 +181,38 @@ Example lex_layout_example :
 Proof.
   split; [|vm_compute; reflexivity].
   repeat constructor; try discriminate; vm_compute; reflexivity.
+Qed.
+
+(** lexer and parser composed: from the TEXT of a stream selector to its matchers.  The text is `{`, then label operator
+    value groups separated by `,`, then `}`, every token followed by any non-empty white space; label names are valid
+    identifiers, possibly keywords that are not function names (by, json, drop, ...); values are printable bytes written with
+    quote and backslash escaped; regex values compile ([text_matcher]).  The text lexes, and the parser returns exactly the
+    matchers. [tok_of] is what the driver does with a lexed token: string tokens receive the results of compiling their text. *)
+Theorem selector_text_parse :
+  forall (anch : bytes -> bool) (re_names : bytes -> option (list bytes)) (ms : list matcher) (l : list (ltok * bytes)) (p r : list token) (fuel : nat),
+  map fst l = selector_ltoks ms -> Forall (fun x => all_space (snd x)) l -> Forall (text_matcher anch) ms -> (length ms < fuel)%nat ->
+  exists toks, lex (layout l) = LexOk toks /\
+    parse_selector fuel {| prev := p; rest := map (tok_of anch re_names) toks ++ r |} =
+      POk ms {| prev := rev (print_selector anch re_names (fun _ => TIdent) ms) ++ p; rest := r |}.
+Proof. exact selector_text_lemma. Qed.
+Print Assumptions selector_text_parse.
+
+(** non-vacuity: a two-matcher selector whose label names are the keywords by and json, one value holding an escaped quote, a newline as one of the separators *)
+Example selector_text_example :
+  let anch := fun _ : bytes => true in
+  let ms := [ {| m_label := ["b"%byte; "y"%byte]; m_op := OpEq; m_value := ["v"%byte; """"%byte] |};
+              {| m_label := ["j"%byte; "s"%byte; "o"%byte; "n"%byte]; m_op := OpNotRe; m_value := ["x"%byte] |} ] in
+  let l := combine (selector_ltoks ms) [[" "%byte]; [" "%byte]; [" "%byte]; [" "%byte]; [x0a]; [" "%byte]; [x09; " "%byte]; [" "%byte]; [" "%byte]] in
+  map fst l = selector_ltoks ms /\ Forall (fun x => all_space (snd x)) l /\ Forall (text_matcher anch) ms /\
+  layout l = [ "{"; " "; "b"; "y"; " "; "="; " "; """"; "v"; "\"; """"; """"; " "; ","; x0a; "j"; "s"; "o"; "n"; " "; "!"; "~"; x09; " "; """"; "x"; """"; " "; "}"; " " ]%byte /\
+  match lex (layout l) with
+  | LexOk toks => match parse_selector 5 {| prev := []; rest := map (tok_of anch (fun _ => None)) toks |} with POk r _ => r = ms | _ => False end
+  | _ => False
+  end.
+Proof.
+  cbv zeta. split; [vm_compute; reflexivity|]. split; [|split; [|split; vm_compute; reflexivity]].
+  - vm_compute. repeat constructor; discriminate.
+  - repeat constructor; vm_compute; reflexivity.
 Qed.
 
 (** static rules *)
